@@ -15,7 +15,9 @@ DECIDED = ("for every arm of fake! as rustc parsed it at check time: R8.1 one we
            "inside the fake, on every admitted call, with the fake's own parameters, and its result is what is returned; unit arms return (); "
            "`times` => C06 R6.1-R6.4; R8.4 the generated fn's safety/ABI and the recorded fn-pointer type equal the kind declared by the "
            "arm's literal tokens; R8.5 the verifier kind is WithCount iff the arm has `times`; "
-           "R8.6 the budget counts this installation's calls only: the counter is reset on the way into the installation (C07 R7.1)")
+           "R8.6 the budget counts this installation's calls only: the counter is reset on the way into the installation (C07 R7.1); "
+           "R8.7 sibling agreement: all arms with (resp. without) `times` define the same item names next to the user's fragments (macro_rules items "
+           "are unhygienic: an extra const/static/fn in one arm captures that identifier in the user's expressions there)")
 NOT_DECIDED = "what the user-supplied expressions themselves do (they are opaque markers here)"
 
 KIND = {"safe": ("Rust", False), "unsafe": ("Rust", True), "extern-C": ("C", True), "extern-system": ("system", True)}
@@ -55,8 +57,39 @@ def generated_convention_obligations(ck, tm, tier, ws, rule):
     return n
 
 
+def sibling_items(ck, tm, hm):
+    """R8.7 `macro_rules!` items are not hygienic: a `const`, `static` or `fn` that an arm's expansion defines next to the user's fragments is
+    visible to those fragments under its own name. The arms are meant to be the same macro with different options, so they must introduce
+    the same item names (per option class: with / without `times`); an arm that introduces one more captures that identifier in the user's
+    `when:` / `times:` / `assign:` / `returns:` expressions in that arm only."""
+    groups = {}
+    for mod, d in hm.modules("fake"):
+        if not hm.accepted(mod):
+            continue
+        pre = mod + "::instantiate::"
+        names = frozenset(k[0][len(pre):].split("::")[0] for k in hm.facts.bodies if isinstance(k, tuple) and isinstance(k[0], str)
+                          and k[0].startswith(pre) and k[1] is None and not k[0][len(pre):].startswith("{"))
+        groups.setdefault(bool(d["arm"].options()["times"]), []).append((d["arm"], names))
+    n = 0
+    for has_times, lst in groups.items():
+        count = {}
+        for arm, names in lst:
+            count[names] = count.get(names, 0) + 1
+        major = max(count, key=lambda k_: count[k_])
+        for arm, names in lst:
+            n += 1
+            extra, missing = sorted(names - major), sorted(major - names)
+            ck.ob("R8.7", "arm%02d[%s]/introduces-the-same-items-as-its-siblings" % (arm.index, arm.label()), tm.target, names == major,
+                  "items defined by the expansion: %s; its %d sibling arm(s) %s `times` define %s%s" % (
+                      sorted(names), len(lst) - 1, "with" if has_times else "without", sorted(major),
+                      "" if names == major else " - extra %s, missing %s: an extra item name is captured in the user's fragments of this arm only" % (extra, missing)),
+                  "src/interface/macros.rs:%d" % arm.line)
+    ck.floor("R8.7", "arms-compared-with-siblings", n, 52)
+
+
 def run_one(ck, tm, tier, ws):
     hm = mac.get(ws, tm.facts, tier)
+    sibling_items(ck, tm, hm)
     from . import roles
     vtypes = roles.verifier_types(tm.facts)
     arms = hmod_arms(hm)
